@@ -19,6 +19,7 @@ type Trace struct {
 	Name   string
 	Events []Event
 	Meta   interface{} // how to reproduce (driver parameters)
+	Writer []Event     // events recorded at the hooks of the background writer (WriterTrace.tla)
 }
 
 // Reject describes why TLC did not accept a trace.
